@@ -114,20 +114,35 @@ def require(ctx, pid, groups):
     ck.analysed["premise_groups_rerun"] = n
 
 
+# the layers around the mapper: a property stated between the physical and the virtual keyboard also needs the reader,
+# the event loop and the writer to hand every event through unchanged
+LOOP_FAITHFUL = [("C10", None, "the event loop reads every notified event, steps it once and writes every non-empty result once, in order (incl. the Driver adapters)"),
+                 ("C18", {"C18-R2", "C18-R3"}, "the writer emits one record per event and the reader returns every key record it reads"),
+                 ("C12", {"C12-R2"}, "a tablet-mode switch releases everything that is held (both arms)"),
+                 ("C06", {"C06-R1"}, "release_all steps a release for every held key")]
+CONVERTER_ORDER = [("C13", {"C13-S5"}, "the converter keeps the source order of the mappings it produces")]
+CONVERTER_REPEAT = [("C13", {"C13-S5", "C13-S8"}, "repeat-only entries set the repeat mode of exactly the mappings with the same trigger")]
+CONVERTER_ALIASES = [("C13", {"C13-S1", "C13-S2", "C13-S3"}, "output-side and absorbing aliases resolve to the keys chosen on the trigger side")]
+
 DEPS = {
-    "C02": C01_ALL + C19_ALL + STEP_TABLE,
-    "C03": IP_EXACT + AM_EXACT + C19_ALL,
-    "C04": C19_ALL + [("C11", {"C11-R4"}, "a repeat chord presses only keys that are not held and releases exactly those: it leaves the held set as it was")],
-    "C05": IP_EXACT + C19_ALL + ACTION_KEY_TABLE,
-    "C06": C19_ALL + STEP_TABLE + [("C12", {"C12-R2"}, "both tablet arms stop the repeat timer and send release_all's result (the loop's timer is the only memory of a repeat trigger)")],
-    "C07": C19_ALL + LAYOUT_VERBATIM,
-    "C08": IP_EXACT,
-    "C09": LAYOUT_VERBATIM,
+    "C01": C19_ALL + STEP_TABLE + LOOP_FAITHFUL,
+    "C02": C01_ALL + C19_ALL + STEP_TABLE + LOOP_FAITHFUL,
+    "C03": IP_EXACT + AM_EXACT + C19_ALL + CONVERTER_ORDER,
+    "C04": C01_ALL + C19_ALL + [("C11", {"C11-R3", "C11-R4"}, "a repeat chord presses only keys that are not held and releases exactly those: it leaves the held set as it was")],
+    "C05": IP_EXACT + C19_ALL + ACTION_KEY_TABLE + CONVERTER_REPEAT,
+    "C06": C19_ALL + STEP_TABLE + [("C12", {"C12-R2"}, "both tablet arms stop the repeat timer and send release_all's result (the loop's timer is the only memory of a repeat trigger)"),
+            ("C08", {"C08-R4"}, "absorbed keys and the absorbing trigger are (re)written whenever an absorbing mapping fires"),
+            ("C10", None, "the event loop hands every event to the mapper"), ("C18", {"C18-R3"}, "the reader returns every key record it reads")],
+    "C07": C19_ALL + LAYOUT_VERBATIM + CONVERTER_REPEAT + [("C18", {"C18-R2"}, "the writer emits one record per event of the batch, in order")],
+    "C08": IP_EXACT + CONVERTER_ALIASES + [("C18", {"C18-R3"}, "the reader drops auto-repeat records (value 2) and returns every press/release record")],
+    "C09": LAYOUT_VERBATIM + CONVERTER_REPEAT,
     "C10": [("C18", {"C18-R3"}, "the reader consumes one input_event record per read() and returns every key record it reads")],
-    "C12": [("C06", None, "release_all returns the mapper to rest")] + C01_ALL + C19_ALL + STEP_TABLE,
+    "C12": [("C06", None, "release_all returns the mapper to rest")] + C01_ALL + C19_ALL + STEP_TABLE + [("C10", {"C10-R1", "C10-R7", "C10-R8"}, "the Driver adapters hand every readiness event and every record through"),
+            ("C18", {"C18-R3"}, "the reader drops auto-repeat records and returns every press/release record")],
     "C14": [("C13", {"C13-S1", "C13-S2", "C13-S3", "C13-S5", "C13-S7", "C13-S8", "C13-S10"},
              "alias-combination indices, definition counts >= 1 and from_table indices are in range by construction (the reasons of the reviewed ledger entries)"),
             ("C01", {"C01-R4", "C01-R6"}, "remove_mapping is only called with the index of a complete count-down sweep over active_mappings and removes exactly that one entry")],
+    "C11": CONVERTER_REPEAT,
     "C19": [("C10", {"C10-R3"}, "the loop writes every non-empty step result exactly once, in order"),
             ("C12", {"C12-R1"}, "the mapper is stepped only while its output is being written (not in tablet mode)")],
 }
